@@ -78,6 +78,10 @@ def run(chk):
     for t in safety.shipped_tables(rng.fork("tables"), 40 if quick else 10 ** 6):
         cmds.append(("shipped:" + os.path.basename(t), "I " + t, None))
     cmds.append(("corpus:ks.utb", "I " + str(VERIF / "corpus" / "c13" / "ks.utb"), None))
+    # lists with a hyphenation dictionary: the automaton (states, pattern strings, transition arrays, state numbers) is walked
+    dics = sorted(p.name for p in (REPO / "tables").glob("hyph_*.dic"))
+    for dname in (dics if not quick else [d for d in dics if d in ("hyph_en_US.dic", "hyph_de_DE.dic", "hyph_cs_CZ.dic", "hyph_hu_HU.dic")]):
+        cmds.append(("shipped:dictionary:" + dname, "I en-us-comp6.ctb," + dname, None))
     for i in range(60 if quick else 3000):
         r = rng.fork(("g", i))
         if r.chance(0.5):
@@ -143,8 +147,8 @@ def run(chk):
     chk.cov["gen_status"] = gen
     chk.cov["checker_cmd"] = "make -C coq Properties/C12.vo (coqc 8.16.1)"
     chk.cov["trusted_base"] = common.TRUSTED_COMMON + [
-        "harness/h_image.c walks the image with the declarations of internal.h and reports what it reads; multipass byte code, "
-        "match patterns and hyphenation states are not walked yet (partial)",
+        "harness/h_image.c walks the image with the declarations of internal.h and reports what it reads; multipass byte code "
+        "and match patterns are not walked yet (partial)",
         "for tables outside fragment F the statement is the verified checker's verdict on the concrete image"]
     if not prove["ok"] and not chk.violations:
         chk.violation("proof", "Properties/%s.v no longer checks: %s" % (PID, prove["failed"][:5]),
